@@ -68,7 +68,7 @@ Inductive value :=
 | VBad (why : string).
 
 Definition effect := (string * list value)%type.
-Record st := mkSt { env : list (string * value); eff : list effect }.
+Record st := mkSt { env : list (string * value); eff : list effect; defers : list (list gstmt) (* newest first *) }.
 
 Inductive outcome :=
 | Ret (vs : list value) (s : st)
@@ -81,8 +81,10 @@ Fixpoint lookup (x : string) (e : list (string * value)) : option value :=
   | (y, v) :: r => if String.eqb x y then Some v else lookup x r
   end.
 
-Definition bind (x : string) (v : value) (s : st) : st := mkSt ((x, v) :: env s) (eff s).
-Definition emit (f : string) (args : list value) (s : st) : st := mkSt (env s) (eff s ++ [(f, args)]).
+Definition bind (x : string) (v : value) (s : st) : st := mkSt ((x, v) :: env s) (eff s) (defers s).
+Definition emit (f : string) (args : list value) (s : st) : st := mkSt (env s) (eff s ++ [(f, args)]) (defers s).
+Definition push_defer (b : list gstmt) (s : st) : st := mkSt (env s) (eff s) (b :: defers s).
+Definition clear_defers (s : st) : st := mkSt (env s) (eff s) [].
 
 Definition prims := string -> list value -> st -> option (value * st).
 
@@ -253,7 +255,14 @@ Section Interp.
                                          | VB b => if b then exec_list th s2 k else exec_list el s2 k
                                          | _ => kbad "if on non-bool" end))
       | GSwitch tag cs => eval fuel' tag s (fun v s1 => cases v cs None s1)
-      | GReturn es => eval_list fuel' es s (fun vs s1 => kret (spread 0 vs) s1)
+      | GReturn es =>
+          (* the results are evaluated, then the deferred closures run, newest first *)
+          eval_list fuel' es s (fun vs s1 =>
+            (fix rund (ds : list (list gstmt)) (s : st) {struct ds} : R :=
+               match ds with
+               | [] => kret (spread 0 vs) s
+               | d :: r => exec_list d s (fun s' => rund r s')
+               end) (defers s1) (clear_defers s1))
       | GBlock l => exec_list l s k
       | GRange kv vv coll body =>
           eval fuel' coll s (fun cv s1 => match loop kv vv cv body s1 with
@@ -262,7 +271,8 @@ Section Interp.
       | GWhile _ _ => kbad "loop"
       | GDefer e =>
           match e with
-          | GCall f _ => k (emit ("defer " ++ f) [] s)
+          | GCall "$closure" [GFunc body] => k (push_defer body s)     (* defer func() { ... }() *)
+          | GCall f _ => k (emit ("defer " ++ f) [] s)                 (* defer x.Unlock(): recorded where it is registered *)
           | _ => kbad "defer"
           end
       | GGo _ => k (emit "go" [] s)
@@ -284,7 +294,12 @@ Section Interp.
 
   (* run a function on arguments, with [leaves] binding the selector paths it reads *)
   Definition run (f : gfunc) (args : list value) (leaves : list (string * value)) (kfall : st -> R) : R :=
-    exec_list 60 (gf_body f) (mkSt (zip_params (gf_params f) args ++ leaves) []) kfall.
+    exec_list 60 (gf_body f) (mkSt (zip_params (gf_params f) args ++ leaves) [] [])
+              (fun s => (fix rund (ds : list (list gstmt)) (s : st) {struct ds} : R :=
+                           match ds with
+                           | [] => kfall s
+                           | d :: r => exec_list 60 d s (fun s' => rund r s')
+                           end) (defers s) (clear_defers s)).
 End Interp.
 
 (* accessors used by tie lemmas about loops: the body of the first range loop nested in a statement list *)
